@@ -170,6 +170,7 @@ func (w *World) GenFunction(fn *ssa.Function, c *Contract) (*VC, []string) {
 		backEdge: map[[2]int]bool{}, ranges: map[*ssa.Range]*rangeInfo{}, counters: map[string]int{}, closures: map[ssa.Value]*ssa.MakeClosure{},
 		globals: map[*types.Var]string{}, safety: map[string]bool{"index": true, "slice": true, "div": true, "nilmap": true, "explicit": true}}
 	g.vc = NewVC(key)
+	heapCounter = 0 // heap versions are per function: the VC text of a function does not depend on what was generated before
 	g.model = &Model{vc: g.vc}
 	for fk, ann := range w.specs.FieldAnn {
 		if ann["const"] != "" {
@@ -985,7 +986,7 @@ func (g *Gen) havocAll(h *Heap, guard string, why string) *Heap {
 
 // assumeMonotone: latch ghosts only ever go from false to true.
 func (g *Gen) assumeMonotone(h, h2 *Heap, guard string, names []string) {
-	for _, gd := range g.specs.Ghosts {
+	for _, gd := range g.specs.sortedGhosts() {
 		if gd.Counter && len(gd.Params) == 0 {
 			vn := "G." + gd.Name
 			if names != nil {
